@@ -95,7 +95,7 @@ type run struct {
 func planFor(tier string) []run {
 	if tier == "thorough" {
 		return []run{
-			{"moderate", "genesis", "wide", 3}, {"moderate", "init", "wide", 3}, {"moderate", "init", "narrow", 5},
+			{"moderate", "genesis", "wide", 3}, {"moderate", "init", "wide", 4}, {"moderate", "init", "narrow", 5},
 			{"moderate", "aged", "wide", 2}, {"moderate", "aged", "narrow", 3}, {"moderate", "pruning", "wide", 3},
 			{"moderate", "drained", "wide", 3}, {"moderate", "epoch", "wide", 2},
 			{"reversed", "init", "wide", 3}, {"reversed", "init", "narrow", 4}, {"reversed", "aged", "narrow", 2},
